@@ -7,7 +7,7 @@ git diff --quiet || { echo "/repo is not clean"; exit 2; }
 git apply "$P" || { echo "patch does not apply to /repo"; exit 2; }
 trap 'git -C /repo checkout -- .' EXIT
 for ID in "$@"; do
-  OUT=$(cd /verif && AXVERIF_REPLAY_DIR=/verif/target/mutant-replays ./check "$ID" ${TIER:-quick} 2>&1); RC=$?
+  OUT=$(cd /verif && AXVERIF_EVIDENCE_DIR=/verif/target/mutant-evidence AXVERIF_REPLAY_DIR=/verif/target/mutant-replays ./check "$ID" ${TIER:-quick} 2>&1); RC=$?
   echo "== $ID exit=$RC"
   echo "$OUT" | grep -A3 "^VIOLATION" | head -${LINES_MAX:-12}
   echo "$OUT" | tail -1
